@@ -92,7 +92,8 @@ def close(printed, exact):
         return exact is None
     if exact is None:
         return False
-    return abs(Fraction(printed) - exact) <= Fraction(51, 10000) + abs(exact) / 10 ** 9
+    # the printed figure is the exact value rounded to two decimals (either way on an exact tie); 1e-12 covers double arithmetic
+    return abs(Fraction(printed) - exact) <= Fraction(5, 1000) + (abs(exact) + 1) / 10 ** 12
 
 
 def compare(s, e):
@@ -335,6 +336,18 @@ def main(ck, tier, w):
             if probs:
                 ck.violation('chain at heights %d..%d (%s build): %s' % (H, H + 2, 'release' if rel else 'debug', '; '.join(probs[:3])),
                              {'first_height': H, 'build': 'release' if rel else 'debug', 'observed': r.brief(), 'tags': []})
+    # means a hair above / below / on a two-decimal rounding boundary (value per output, outputs per transaction, block size)
+    for vals in ([12500000, 12500001], [4500000, 4500000, 4500001], [12500000, 12500000], [12499999, 12500000], [7500000, 7500001, 7500001], [500000, 500001],
+                 [10 ** 8 * 3 + 500000, 10 ** 8 * 3 + 500001], [1, 0, 0]):
+        tb = [datadir.mk_block(b'\0' * 32, [btc.coinbase(0, None, outs=[{'val': v, 'spk': spk('P2PKH', rng)} for v in vals])], t=1300000000, nonce=0)]
+        tb.append(datadir.mk_block(tb[0]['hash'], [btc.coinbase(1, None, outs=[{'val': vals[0], 'spk': spk('P2SH', rng)}] * len(vals))] * 1, t=1300000450, nonce=1))
+        td = write_dir(w, tb[:1], 0)
+        r = run.run_parser(td.path, 'simplestats')
+        ck.evals()
+        ck.distinct(('tie', tuple(vals)))
+        probs = ['exit status %d: %s' % (r.rc, r.stderr[-300:])] if r.rc != 0 else compare(chains.parse_stats(r.stdout), expected_from_ref([(0, tb[0])], 'bitcoin'))
+        if probs:
+            ck.violation('one block whose outputs are worth %s units: %s' % (vals, '; '.join(probs[:3])), {'values': vals, 'observed': r.brief(), 'tags': []})
     # counts beyond 16 bits (66 000 transactions in a block; 65 600 inputs, outputs, witness items; 66 000-byte scripts)
     from lib import extremes
     xb = extremes.wide_chain('%d-c15' % seed)
